@@ -24,10 +24,20 @@
 (*                  parity-partner map; irrelevant when every generator    *)
 (*                  owns its map, decisive under deviation "SharedNameMap" *)
 (*                  (one class-level dict shared by all generators).       *)
+(*   dpdRx[ref]     the reaction (RxOf) of the builder that first filled   *)
+(*                  the module-level DPD cache for that reference          *)
+(*                  subsystem; decisive under deviation "CrossReactionCache"*)
+(*                  (cache key ignores part of the reaction, e.g. its      *)
+(*                  helicity sets: a builder of ANOTHER reaction over the  *)
+(*                  same particles reads the entry).                       *)
+(*                                                                         *)
+(* Builders need not share the reaction: RxOf[b] names the reaction of     *)
+(* builder b (the same decay with complete / restricted helicity sets).    *)
 (***************************************************************************)
 EXTENDS Integers, FiniteSets, Sequences, TLC
 
-CONSTANTS Builders,     \* builder objects sharing the reaction
+CONSTANTS Builders,     \* builder objects living in one process
+          RxOf,         \* [Builders -> reaction names]
           Aligns,       \* subset of {"none", "axis", "dpd1", "dpd2", "dpd3"}
           Stables,      \* subset of {"none", "all", "one"}
           Names,        \* resonance names that dynamics can be assigned to
@@ -35,8 +45,8 @@ CONSTANTS Builders,     \* builder objects sharing the reaction
           MaxOps,       \* bound on the length of a history
           Dev
 
-VARIABLES cfg, choice, perm, out, dpdCache, leaked, nops, nameOwner
-vars == <<cfg, choice, perm, out, dpdCache, leaked, nops, nameOwner>>
+VARIABLES cfg, choice, perm, out, dpdCache, leaked, nops, nameOwner, dpdRx
+vars == <<cfg, choice, perm, out, dpdCache, leaked, nops, nameOwner, dpdRx>>
 
 \* naming options of the amplitude name generator (builder.naming.insert_parent_helicities / insert_child_helicities)
 Namings == {"default", "parent", "nochild"}
@@ -53,27 +63,28 @@ Init == /\ cfg = [b \in Builders |-> DefaultCfg]
         /\ leaked = [b \in Builders |-> {}]
         /\ nops = 0
         /\ nameOwner \in Builders
+        /\ dpdRx = [r \in Refs |-> ""]
 
 Tick == nops < MaxOps /\ nops' = nops + 1
-Key(b) == <<cfg[b], choice[b], perm[b]>>
+Key(b) == <<RxOf[b], cfg[b], choice[b], perm[b]>>
 
 SetAlign(b, a) == /\ Tick /\ cfg' = [cfg EXCEPT ![b].align = a]
-                  /\ UNCHANGED <<choice, perm, out, dpdCache, leaked, nameOwner>>
+                  /\ UNCHANGED <<choice, perm, out, dpdCache, leaked, nameOwner, dpdRx>>
 SetStable(b, s) == /\ Tick /\ cfg' = [cfg EXCEPT ![b].stable = s]
-                   /\ UNCHANGED <<choice, perm, out, dpdCache, leaked, nameOwner>>
+                   /\ UNCHANGED <<choice, perm, out, dpdCache, leaked, nameOwner, dpdRx>>
 SetScalar(b, x) == /\ Tick /\ cfg' = [cfg EXCEPT ![b].scalar = x]
-                   /\ UNCHANGED <<choice, perm, out, dpdCache, leaked, nameOwner>>
+                   /\ UNCHANGED <<choice, perm, out, dpdCache, leaked, nameOwner, dpdRx>>
 SetCoup(b, x) == /\ Tick /\ cfg' = [cfg EXCEPT ![b].coup = x]
-                 /\ UNCHANGED <<choice, perm, out, dpdCache, leaked, nameOwner>>
+                 /\ UNCHANGED <<choice, perm, out, dpdCache, leaked, nameOwner, dpdRx>>
 \* builder.naming.<flag> = ...: the generator rebuilds its parity-partner map
 SetNaming(b, x) == /\ Tick /\ cfg' = [cfg EXCEPT ![b].naming = x] /\ nameOwner' = b
-                   /\ UNCHANGED <<choice, perm, out, dpdCache, leaked>>
+                   /\ UNCHANGED <<choice, perm, out, dpdCache, leaked, dpdRx>>
 \* dynamics.assign(name, builder): all decays of the resonance with that name
 Assign(b, n, t) == /\ Tick /\ choice' = [choice EXCEPT ![b][n] = t]
-                   /\ UNCHANGED <<cfg, perm, out, dpdCache, leaked, nameOwner>>
+                   /\ UNCHANGED <<cfg, perm, out, dpdCache, leaked, nameOwner, dpdRx>>
 \* adapter.permutate_registered_topologies(): idempotent
 Permutate(b) == /\ Tick /\ perm' = [perm EXCEPT ![b] = TRUE]
-                /\ UNCHANGED <<cfg, choice, out, dpdCache, leaked, nameOwner>>
+                /\ UNCHANGED <<cfg, choice, out, dpdCache, leaked, nameOwner, dpdRx>>
 
 SubstKey(b) == <<cfg[b].stable, cfg[b].scalar>>
 \* an inadmissible configuration makes formulate() raise after it has started filling its
@@ -93,7 +104,10 @@ Formulate(b) ==
          stale3 == "ResetAtEnd" \in Dev /\ ~Fails(b) /\ "partial" \in leaked[b]
          \* the shared parity-partner map was last rebuilt by a generator with other naming options
          stale4 == "SharedNameMap" \in Dev /\ nameOwner # b /\ cfg[nameOwner].naming # cfg[b].naming
-     IN /\ out' = [out EXCEPT ![b] = [key |-> Key(b), stale |-> stale1 \/ stale2 \/ stale3 \/ stale4]]
+         \* the module-level DPD cache entry was built for another reaction over the same particles
+         stale5 == "CrossReactionCache" \in Dev /\ usesDpd /\ dpdRx[a] \notin {"", RxOf[b]}
+     IN /\ out' = [out EXCEPT ![b] = [key |-> Key(b), stale |-> stale1 \/ stale2 \/ stale3 \/ stale4 \/ stale5]]
+        /\ dpdRx' = IF usesDpd /\ dpdRx[a] = "" THEN [dpdRx EXCEPT ![a] = RxOf[b]] ELSE dpdRx
         /\ dpdCache' = IF "DpdCacheAliasing" \in Dev /\ usesDpd /\ dpdCache[a] = <<>>
                        THEN [dpdCache EXCEPT ![a] = SubstKey(b)] ELSE dpdCache
         /\ leaked' = IF "NoReset" \in Dev
